@@ -260,8 +260,8 @@ def gen_item(rng, n, allow_list=True, edge=False):
     if c < 0.35:
         return ["i", rng.randint(lo, hi)]
     if c < 0.75:
-        f = lambda: rng.choice([None, rng.randint(-n - 2, n + 2)])
-        return ["s", f(), f(), rng.choice([None, None, 1, 2, -1, -2, 3] + ([0] if edge else []))]
+        f = lambda: rng.choice([None, rng.randint(-n - 2, n + 2), rng.randint(0, max(n - 1, 0))])
+        return ["s", f(), f(), rng.choice([None, None, 1, 2, 2, -1, -2, 3] + ([0] if edge else []))]
     if c < 0.85:
         return ["n"]
     if allow_list:
@@ -344,6 +344,14 @@ class C29(Property):
             spec = gen_spec(rng)
             op = gen_op(rng, spec, edge=i % 4 == 3)
             cases.append((spec, op))
+        for i in range(ctx.n(60, 600)):
+            n = rng.randint(3, 6)
+            spec = {"bd": rng.choice([0, 1, 2]), "shape": [n], "axes": [["T", rng.choice([12, 15, 17, 18, 20])]]}
+            spec["shape"] += [2] * spec["bd"]
+            if spec["bd"] == 2:
+                spec["cls"] = rng.choice(["Images", "Waves", "DiffractionPatterns"])
+            start, step = rng.randint(1, n - 1), rng.choice([2, 3])
+            cases.append((spec, {"op": "get", "items": [["s", start, rng.choice([None, n, n - 1]), step]], "keepdims": False, "bare": rng.random() < 0.5}))
         outs = drv.query([op_line(s, o) for s, o in cases])
         for (spec, op), out in zip(cases, outs):
             if out == "err unsupported":
